@@ -1,0 +1,34 @@
+//go:build verif
+
+// Contracts for package executor (properties C24, C06). Comment-only: read by /verif/bin/gsv, never
+// compiled into the package.
+
+package executor
+
+//@ ghost nTraversed map[ref]int     -- blocks a traverser has loaded so far (what NBlocksTraversed reports)
+//@ ghost nStart int                 -- remote requests started by this executor so far
+//@ func github.com/ipfs/go-graphsync/ipldutil.Traverser.NBlocksTraversed
+//@   assumed
+//@   modifies nothing
+//@   ensures result == nTraversed[self] && result >= 0
+
+//@ -- C24: the request that goes out asks the responder to skip exactly max(user value, blocks already loaded locally)
+//@ -- leading blocks (no such extension when that is 0), and goes to the request's own peer
+//@ func Executor.startRemoteRequest
+//@   lenient
+//@   safety off
+//@   modifies alloc
+//@   ghost nStart := old(nStart) + 1
+//@   callsite donotsendfirstblocks.EncodeDoNotSendFirstBlocks: assert $skipBlockCount == max(rt.DoNotSendFirstBlocks, nTraversed[rt.Traverser]) && $skipBlockCount > 0
+//@   callsite Manager.SendRequest: assert arg0 == rt.P
+//@   callsite Manager.SendRequest: assert max(rt.DoNotSendFirstBlocks, nTraversed[rt.Traverser]) == 0 ==> arg1 == rt.Request
+//@   callsite GraphSyncRequest.ReplaceExtensions: assert max(rt.DoNotSendFirstBlocks, nTraversed[rt.Traverser]) > 0
+
+//@ -- C24: nothing is sent to the network unless a load came back "missing remotely", and then exactly one request is started
+//@ func Executor.traverse
+//@   lenient
+//@   safety off
+//@   modifies alloc, nStart, nTraversed
+//@   callsite Executor.startRemoteRequest: assert nStart == old(nStart) && dyntype(result.Err) == typetag("graphsync.RemoteMissingBlockErr")
+//@   loop 1 invariant nStart == old(nStart) + ite(requestSent, 1, 0)
+//@   ensures nStart <= old(nStart) + 1
